@@ -1,20 +1,17 @@
 /-
   Bulk — the bulk-ingestion entry points of `Memvid` (property C40), on top of the Core model.
 
-  `Core.lean` mirrors `commit_skip_indexes` / `finalize_indexes` AS THEY ARE in the unrepaired tree
-  (`Mem.commitSkipIndexes`, `Mem.finalizeIndexes`: the delta's embeddings are dropped, no sketches
-  are generated for frames applied while Tantivy was detached).  This file mirrors the two
-  functions as `/verif/fixes/C40.diff` leaves them:
+  Since repair 7cd4b84 (`/verif/fixes/C40.diff`, applied) `Core.lean` itself mirrors the repaired
+  `commit_skip_indexes` / `finalize_indexes` (`Mem.foldEmbs`, `Mem.fillSketches`).  This file keeps
 
-    Mem.keepEmbs             mutation.rs commit_skip_indexes_inner, the added block
-                             `build_vec_artifact(&delta.inserted_embeddings)` → `self.vec_index = Some(index)`
-    Mem.commitSkipIndexesR   mutation.rs commit_skip_indexes (+ _inner), repaired
-    missingSketches          mutation.rs finalize_indexes, the added block (active frames without a
-                             sketch entry whose index text is non-blank)
-    Mem.finalizeIndexesR     mutation.rs finalize_indexes, repaired (+ persist_sketch_track)
-    stepR / runR / traceR    `Core.step` with the two operations replaced
-
-  and the documents / op lists the property quantifies over (`plainOps`, `batchOps`, `skipOps`).
+    Mem.keepEmbs / Mem.commitSkipIndexesR / missingSketches / Mem.finalizeIndexesR / stepR / runR
+        the two repaired functions written out flat (the form the C40 proofs work on);
+        `MvProps/C40.lean` proves `stepR = step`, `runR = run`: they ARE the shared model
+    Mem.commitSkipIndexesOld / Mem.finalizeIndexesOld / stepOld / runOld
+        the two functions as they were BEFORE the repair (the delta's embeddings dropped, no sketches for
+        frames applied while Tantivy was detached) — the subject of `C40_counterexample`
+    plainOps / batchOps / skipOps / skipBatchOps
+        the documents / op lists the property quantifies over.
 -/
 import MvModel.Core
 namespace Mv.Core
@@ -68,6 +65,31 @@ def runR (m : Mem) : List Op → Mem
 def outsR (m : Mem) : List Op → List Out
   | [] => []
   | op :: ops => (stepR m op).2 :: outsR (stepR m op).1 ops
+
+/-! ## The code before repair 7cd4b84 -/
+
+/-- `commit_skip_indexes()` before the repair: `let _delta = result?;` — the embeddings are dropped -/
+def Mem.commitSkipIndexesOld (m : Mem) : Mem × Out :=
+  if m.pending.isEmpty && !m.dirty then (m, .ok) else
+  match applyRecords m m.pending false with
+  | none => ({ m with tantivyDirty := false }, .err "commit-failed")
+  | some (m1, _delta) => (m1.clearIndexManifests.checkpoint, .ok)
+
+/-- `finalize_indexes()` before the repair: `rebuild_indexes(&[], &[])` and nothing else -/
+def Mem.finalizeIndexesOld (m : Mem) (ft : Nat) : Mem × Out := (m.rebuildIndexes [] [] ft, .ok)
+
+def stepOld (m : Mem) : Op → Mem × Out
+  | .commitSkipIndexes => m.commitSkipIndexesOld
+  | .finalizeIndexes ft => m.finalizeIndexesOld ft
+  | op => step m op
+
+def runOld (m : Mem) : List Op → Mem
+  | [] => m
+  | op :: ops => runOld (stepOld m op).1 ops
+
+def outsOld (m : Mem) : List Op → List Out
+  | [] => []
+  | op :: ops => (stepOld m op).2 :: outsOld (stepOld m op).1 ops
 
 /-! ## The three ingestion programs -/
 
